@@ -308,7 +308,10 @@ class Compiler:
         if order:
             nodes = [nodes[i] for i in order]
         k_add = g.get("add_nodes_after")
-        if g.get("explicit_edges"):
+        if isinstance(g.get("explicit_edges"), list):
+            # a hand-written edge list (tuples as the user would pass them)
+            graph = hg.Graph(nodes, name=g.get("name"), edges=[tuple(e) for e in g["explicit_edges"]])
+        elif g.get("explicit_edges"):
             graph = hg.Graph(nodes, name=g.get("name"), edges=self._edges(nodes, split=g.get("explicit_edges") == "split"))
         elif isinstance(k_add, int) and 0 < k_add < len(nodes):
             # incremental construction: the first nodes, the bindings, then add_nodes() for the rest
